@@ -138,10 +138,12 @@ impl BitWriter {
         self.write_one(x & 1 > 0);
         x >>= 1;
       } else {
+        // the reader only expects a terminating bit while it has read
+        // fewer than BITS_TO_ENCODE_N_ENTRIES bits
+        self.write_one(false);
         break;
       }
     }
-    self.write_one(false);
   }
 
   pub(crate) fn finish_byte(&mut self) {
